@@ -41,7 +41,17 @@ def main():
         if a.replay:
             rc = mod.replay(ctx, a.replay)
             sys.exit(rc)
-        mod.run(ctx)
+        import subprocess
+        try:
+            mod.run(ctx)
+        except (core.InfrastructureError, subprocess.TimeoutExpired, FileNotFoundError, MemoryError):
+            raise
+        except Exception as ex:
+            # the harness could not process what the implementation did (it never happens on the unchanged tree): the
+            # correspondence is broken; whatever failing inputs were found before this point are still reported
+            tb = traceback.format_exc()
+            print(tb)
+            ctx.corr_break(f"harness aborted while exercising the implementation: {type(ex).__name__}: {ex}", dict(traceback=tb[-3000:]))
         rc = ctx.finish()
     except Exception:
         traceback.print_exc()
